@@ -8,6 +8,7 @@ use serde_json::json;
 fn cfg_requests() -> AlphaCfg {
     let mut c = crate::props::c01::pool_cfg();
     c.burnt_requests = true;
+    c.odd_shapes = true;
     c.transfers = false;
     c.overpay = false;
     c.mints = true;
